@@ -53,6 +53,7 @@ def main():
     ap.add_argument("--sids", default="0")
     ap.add_argument("--out", default=None)
     ap.add_argument("--no-exclude", action="store_true")
+    ap.add_argument("--only-excluded", action="store_true")
     ap.add_argument("--sub", action="store_true",
                     help="soak the fixed sub-sample #s1 of each workload")
     ap.add_argument("--nproc", type=int, default=None)
@@ -70,6 +71,10 @@ def main():
         for i in range(a.gen[0], a.gen[1]):
             d = gen_defs.gen_def(i)
             ex = None if a.no_exclude else gen_defs.excluded_by(d)
+            if a.only_excluded:
+                if not ex:
+                    continue
+                ex = None
             if ex:
                 excluded[ex] = excluded.get(ex, 0) + 1
                 continue
